@@ -14,7 +14,6 @@ import (
 	"fmt"
 	"io"
 	"net/http"
-	"regexp"
 	"strconv"
 
 	rt "github.com/go-openapi/runtime"
@@ -51,27 +50,6 @@ type Op struct {
 type Case struct {
 	Script Script `json:"script"`
 	Ops    []Op   `json:"ops"`
-}
-
-var (
-	reArgs  = regexp.MustCompile(`\((0x[0-9a-f]+\??|\{[^)]*\}|\.\.\.)(, *[^)]*)?\)`)
-	reOff   = regexp.MustCompile(` \+0x[0-9a-f]+`)
-	reGo    = regexp.MustCompile(`goroutine \d+`)
-	reAddr  = regexp.MustCompile(`0x[0-9a-f]{6,}\??`)
-)
-
-// guard is kit.Guard with the run-dependent parts of the stack text (pointer arguments, frame offsets,
-// goroutine ids) removed: rapid only minimises a failure whose message is the same on every run.
-func guard(what string, f func()) *kit.Violation {
-	v := kit.Guard(what, f)
-	if v != nil {
-		m := reArgs.ReplaceAllString(v.Msg, "(...)")
-		m = reOff.ReplaceAllString(m, "")
-		m = reGo.ReplaceAllString(m, "goroutine N")
-		m = reAddr.ReplaceAllString(m, "0x?")
-		v.Msg = m
-	}
-	return v
 }
 
 var errScripted = errors.New("scripted stream failure")
@@ -254,14 +232,15 @@ func Check(c Case) *kit.Violation {
 		return fmt.Sprintf("op %d of %v on %+v", i, c.Ops, sc)
 	}
 
+	var scratch []byte
 	read := func(i, n int, what string) *kit.Violation {
-		buf := make([]byte, n)
-		for j := range buf {
-			buf[j] = 0xA5
+		if n > len(scratch) {
+			scratch = make([]byte, n)
 		}
+		buf := scratch[:n]
 		var k int
 		var rerr error
-		if v := guard("Body.Read", func() { k, rerr = req.Body.Read(buf) }); v != nil {
+		if v := kit.Guard("Body.Read", func() { k, rerr = req.Body.Read(buf) }); v != nil {
 			return kit.Failf("%s (%s)", v.Msg, hist(i))
 		}
 		if k < 0 || k > n {
@@ -306,7 +285,7 @@ func Check(c Case) *kit.Violation {
 				continue
 			}
 			var h bool
-			if v := guard("HasBody", func() { h = rt.HasBody(req) }); v != nil {
+			if v := kit.Guard("HasBody", func() { h = rt.HasBody(req) }); v != nil {
 				return kit.Failf("%s (%s)", v.Msg, hist(i))
 			}
 			probes++
@@ -333,7 +312,7 @@ func Check(c Case) *kit.Violation {
 			if req.Body == nil {
 				continue
 			}
-			if v := guard("Body.Close", func() { _ = req.Body.Close() }); v != nil {
+			if v := kit.Guard("Body.Close", func() { _ = req.Body.Close() }); v != nil {
 				return kit.Failf("%s (%s)", v.Msg, hist(i))
 			}
 			if !closed {
